@@ -4,5 +4,5 @@ From Conc Require Import Lin.
 From C34 Require Import Model ModelTrace Gen Checker.
 Extraction "model.ml" drv_b2n drv_n2b drv_z_of_n drv_n_of_z drv_nat_of_n drv_n_of_nat
   q_step q_run m_new m_step m_run indices_ok res_eqb res_sim sort_pairs trace_ok m_buckets
-  pq_lin pq_lin_complete pq_cert pq_discipline_ok pq_methods_listed probe_runs
+  pq_lin pq_lin_complete pq_cert pq_pcert pq_discipline_ok pq_methods_listed probe_runs
   mode_exists mode_len mode_peek mode_pending mode_pop mode_popt mode_push mode_remove.
